@@ -417,6 +417,13 @@ class SysFs(EngineBase):
     @staticmethod
     def apply_fault(files, path, kind):
         files = dict(files)
+        # /sys/class/hwmon/hwmonN and /sys/devices/platform/coretemp.*/hwmon/
+        # hwmonN are the same kernel object: a file cannot fail under one
+        # name only
+        twin = path.replace(HW + "/", "/sys/devices/platform/coretemp.0/"
+                            "hwmon/")
+        if twin != path and twin in files:
+            files = SysFs.apply_fault(files, twin, kind)
         if kind == "absent":
             files.pop(path, None)
         elif kind == "EACCES":
